@@ -11,7 +11,8 @@
      C  C08_no_panic_distinct_uuid_links   the application links only entities of different uuids
         (corollary C08_no_panic_own_hierarchy: only entities it spawned itself)
      C08_no_panic_statement_refuted        the unrestricted statement is false in the model, with
-        three witnesses (untruthful oracles twice, an order Bevy does not build once). *)
+        two witnesses (untruthful oracles); a third one (an order Bevy does not build) was closed
+        by the despawned_locally repair, see odd_order_single_replica. *)
 From stdpp Require Import gmap list.
 From Coq Require Import NArith Lia.
 From RecordUpdate Require Import RecordSet.
@@ -1495,15 +1496,15 @@ Example self_client_panics :
   p_panic <$> (grun (init_global 1) self_client !! 0) = Some (Some PSetParentSelf).
 Proof. split; vm_compute; reflexivity. Qed.
 
-(* With truthful oracles the statement still fails for an executable order Bevy never builds (the
-   client systems are .chain()ed in src/client/mod.rs: removed ... poll).  Client 1 runs
+(* An executable order Bevy never builds (the client systems are .chain()ed in src/client/mod.rs:
+   removed ... poll) used to be a third witness, with truthful oracles.  Client 1 runs
    [poll; entity_removed_from_client; sync]: the replica reserved by poll is not alive yet when
-   entity_removed walks uuid_to_entity, so the uuid is forgotten and the second MSpawn 5 (the host
-   sends one live and one in the snapshot) passes the duplicate check: two live replicas of uuid 5.
-   Peer 1 then leaves, starts hosting, links its two replicas; the snapshot it sends to the joining
-   peer 2 contains MParented 5 5. *)
+   entity_removed walks uuid_to_entity, so the uuid is forgotten; the second MSpawn 5 (the host
+   sends one live and one in the snapshot) then passed the duplicate check and there were two live
+   replicas of uuid 5, which a later host could link and announce as MParented 5 5.  Since the
+   despawned_locally repair (t_tomb) the forgotten uuid is remembered as despawned locally and
+   the stale second MSpawn 5 is ignored: one replica, no duplicate to link. *)
 Definition odd_cli_order : list sysid := [SCliConnecting; SCliVerify; SCliPoll; SCliRemoved; SSync].
-Definition fo1 (cl : list peer) (sp : list peer) : frame_oracle := Build_frame_oracle [] cl None sp 0 [].
 Definition odd_order : list step :=
   [StApp 0 (OSetup true 0); StApp 1 (OSetup false 0);
    StApp 0 (OSetOrder host_order); StApp 1 (OSetOrder odd_cli_order);
@@ -1511,18 +1512,12 @@ Definition odd_order : list step :=
    StFrame 1 (fc 0); StFrame 1 (fc 0); StFrame 1 (fc 0);
    StApp 0 (OSpawn 5 true []);
    StFrame 0 (fh [1]);
-   StFrame 1 (fc 1); StFrame 1 (fc 1);
-   StApp 1 ORemoveTransports; StApp 1 (OSetup true 1); StApp 1 (OSetOrder host_order);
-   StFrame 1 (fo1 [] []); StFrame 1 (fo1 [] []); StFrame 1 (fo1 [] []);
-   StApp 1 (OSetParent E0 (E0 + 1));
-   StFrame 1 (fo1 [] []);
-   StApp 2 (OSetup false 1); StApp 2 (OSetOrder cli_order);
-   StFrame 2 (fc 0); StFrame 2 (fc 0); StFrame 2 (fc 0);
-   StFrame 1 (fo1 [2] [2]);
-   StFrame 2 (fc 10)].
-Example odd_order_panics :
-  conforming 3 odd_order /\
-  p_panic <$> (grun (init_global 3) odd_order !! 2) = Some (Some PSetParentSelf).
+   StFrame 1 (fc 1); StFrame 1 (fc 1)].
+Example odd_order_single_replica :
+  conforming 2 odd_order /\
+  (fun pr => ((fun '(e, en) => (e, en_sync en)) <$> entities pr, t_tomb pr, map_to_list (t_u2e pr), p_panic pr))
+    <$> (grun (init_global 2) odd_order !! 1)
+  = Some ([(E0, Some 5)], [5], [], None).
 Proof. split; vm_compute; reflexivity. Qed.
 
 (* Why conforming asks for "marked at most once": the model's fresh uuid of an entity is its id,
@@ -1553,24 +1548,25 @@ Example demo_conforming_links : conforming_links 2 demo.
 Proof. vm_compute. reflexivity. Qed.
 Example demo_by_theorem_C p pr : grun (init_global 2) demo !! p = Some pr -> p_panic pr = None.
 Proof. intros H. apply (C08_no_panic_distinct_uuid_links 2 demo demo_conforming_links p pr H). Qed.
-(* ... and each of the three panicking witnesses has the application link two replicas that carry
+(* ... and each of the two panicking witnesses has the application link two replicas that carry
    the same uuid: that operation is the only thing conforming_links rejects in them *)
 Example witnesses_link_equal_uuids :
   conforming_links_from (init_global 3) [] [] three_hosts = false /\
-  conforming_links_from (init_global 1) [] [] self_client = false /\
-  conforming_links_from (init_global 3) [] [] odd_order = false.
+  conforming_links_from (init_global 1) [] [] self_client = false.
 Proof. repeat split; vm_compute; reflexivity. Qed.
 
 (* What remains for the full statement C08_no_panic_statement (false as it stands, see above): the
    operation theorem C excludes - linking two live entities that carry the same uuid - can only be
-   performed on a peer that holds two live entities with one uuid.  The three witnesses show that
+   performed on a peer that holds two live entities with one uuid.  The witnesses show that
    this needs (i) renet oracles that are not truthful (a host listed as its own client, hosts that
-   are each other's clients), or (ii) an executable order Bevy does not build for the plugin
-   (entity_removed_from_client between poll_for_messages and its sync point), or (iii) SyncMark
-   inserted twice on one entity (excluded by conforming: a model convention).  Under a premise
-   `valid_session` stating (i) and (ii) one has to prove the uniqueness half of C01 ("no peer ever
-   holds two live entities with the same uuid"); then conforming implies conforming_links along
-   the run and theorem C gives C08_no_panic_statement. *)
+   are each other's clients), or (iii) SyncMark inserted twice on one entity (excluded by
+   conforming: a model convention); the former route (ii), an executable order Bevy does not build
+   for the plugin (entity_removed_from_client between poll_for_messages and its sync point), no
+   longer duplicates a replica since the despawned_locally repair, but no theorem here excludes
+   other odd orders.  Under a premise `valid_session` stating (i) and the plugin's order one has to
+   prove the uniqueness half of C01 ("no peer ever holds two live entities with the same uuid");
+   then conforming implies conforming_links along the run and theorem C gives
+   C08_no_panic_statement. *)
 
 (* names asked for by the proof conventions *)
 Definition C08_refuted := C08_refuted_with_arbitrary_oracles.
